@@ -146,6 +146,10 @@ def stepAdapter (a : AdpW) : List String → AdpW × String
     match c.toNat?, optNat tat, parseEvs tx with
     | some c, some t, some x => doStep a (.close c t x)
     | _, _, _ => (a, "bad-op")
+  | ["adp.cancel", c, wid] =>
+    match c.toNat?, wid.toNat? with
+    | some c, some n => doStep a (.cancelCaller c n)
+    | _, _ => (a, "bad-op")
   | ["adp.mkstream", c, sid] =>
     match c.toNat?, sid.toNat? with
     | some c, some s => doStep a (.mkStream c s)
